@@ -19,8 +19,9 @@ def log(*a):
 
 
 class Ctx:
-    def __init__(self, prop, tier, seed):
+    def __init__(self, prop, tier, seed, repo=None):
         self.prop, self.tier, self.seed = prop, tier, seed
+        self.repo = repo or REPO
         self.t0 = time.time()
         base = os.environ.get("VERIF_SCRATCH") or tempfile.gettempdir()
         self.scratch = tempfile.mkdtemp(prefix="verif-%s-" % prop, dir=base)
@@ -46,10 +47,10 @@ class Ctx:
         for f in glob.glob(os.path.join(VERIF, "harness", "*.go")):
             shutil.copy(f, src)
         with open(os.path.join(VERIF, "harness", "go.mod.tmpl")) as f:
-            gomod = f.read().replace("@REPO@", REPO)
+            gomod = f.read().replace("@REPO@", self.repo)
         with open(os.path.join(src, "go.mod"), "w") as f:
             f.write(gomod)
-        shutil.copy(os.path.join(REPO, "go.sum"), src)
+        shutil.copy(os.path.join(self.repo, "go.sum"), src)
         out = self.harness + ("-race" if race else "")
         cmd = ["go", "build", "-tags", "verif"] + (["-race"] if race else []) + ["-o", out, "."]
         p = subprocess.run(cmd, cwd=src, env=GOENV, capture_output=True, text=True)
@@ -204,7 +205,7 @@ class Ctx:
             found.append({"property": self.prop, "what": reason, "fn": ev["fn"], "expr": ev.get("e", ""),
                           "list": ev.get("a"), "expected": "the observation Api.tla computes for these arguments",
                           "observed": {k: ev.get(k) for k in ("sat", "err", "off", "lex", "ok", "bad", "out", "outnil", "panic", "mut")},
-                          "source": "I->S:" + name})
+                          "rawhex": ev.get("rawhex") or [], "source": "I->S:" + name})
         self.mismatches.extend(found)
         for ev in events[:2]:
             if len(self.samples) < 10:
@@ -213,6 +214,14 @@ class Ctx:
                             "rejected_events": len(set(i for i, _ in pairs)), "wall_s": round(time.time() - t0, 1)})
         log("[%s] %s: %d events validated, %d rejected, %.0fs" % (self.prop, name, len(events), len(set(i for i, _ in pairs)), time.time() - t0))
         return found
+
+
+def sessions(ctx, n=None):
+    """histories of related calls (same ids in every spelling, through all three functions) in one process,
+    every event trace-validated: a result that depends on earlier calls is rejected where it shows"""
+    n = n or (400 if ctx.tier == "thorough" else 80)
+    ctx.drive("sessions", "session", n)
+    return ctx.validate_trace("sessions")
 
 
 # ------------------------------------------------------------------ known findings
@@ -237,7 +246,8 @@ def finding_matches(entry, m):
         ids = set(re.findall(r"[A-Za-z0-9.\-]+", re.sub(r"\b(AND|OR|WITH)\b", " ", blob)))
         ids = {re.sub(r"(-or-later|-only)$", "", i, flags=re.I).lower() for i in ids}
         allowed = {i.lower() for i in mt.get("ids", [])}
-        return bool(ids) and ids <= allowed and ("+" in blob or "-or-later" in blob.lower())
+        must = {i.lower() for i in mt.get("must_include", [])}
+        return bool(ids) and ids <= allowed and must <= ids and ("+" in blob or "-or-later" in blob.lower())
     if kind == "table-invariant":
         return m.get("what") in mt.get("invariants", []) and set(m.get("list") or []) <= set(mt.get("ids", []))
     if kind == "cost-family":
